@@ -11,6 +11,7 @@ import (
 	"encoding/json"
 	"fmt"
 	"os"
+	"runtime"
 	"testing"
 	"time"
 )
@@ -88,7 +89,11 @@ func TrackWrites(on bool) {}
 // it is printed, and the check compares the two (validation of the translator).
 func Observe(tag string, b []byte) { fmt.Printf("VREPLAY OBSERVE %s %x\n", tag, b) }
 
-var expectPanic bool
+var expectPanic, expectErrorPanic bool
+
+// ExpectErrorPanic: a panic whose value is an ordinary error (not a runtime.Error) is acceptable
+// for the code that follows.
+func ExpectErrorPanic() { expectErrorPanic = true }
 
 // ExpectExit announces that the code after it must end in os.Exit(code). Under gosym, atExit
 // runs inside the os.Exit stub so that it can assert on the state at exit; natively the process
@@ -123,6 +128,27 @@ func Assert(b bool, msg string) {
 	if !b {
 		panic(assertFailed{msg})
 	}
+}
+
+var allocLimit, allocStart uint64
+
+// AllocLimit starts an allocation budget of n bytes for the code that follows: under gosym every
+// make/append is checked against it (symbolic sizes by the solver); natively AllocEnd compares the
+// bytes actually allocated (runtime.MemStats.TotalAlloc) with the budget.
+func AllocLimit(n int) {
+	var ms runtime.MemStats
+	runtime.ReadMemStats(&ms)
+	allocLimit, allocStart = uint64(n), ms.TotalAlloc
+}
+
+func AllocEnd() {
+	var ms runtime.MemStats
+	runtime.ReadMemStats(&ms)
+	if allocLimit > 0 && ms.TotalAlloc-allocStart > allocLimit+65536 {
+		allocLimit = 0
+		panic(assertFailed{fmt.Sprintf("allocated %d bytes, out of proportion to the budget of %d", ms.TotalAlloc-allocStart, allocLimit)})
+	}
+	allocLimit = 0
 }
 
 // AtomicOps: number of sync/atomic operations executed so far (gosym only; natively 0).
@@ -181,8 +207,11 @@ func RunReplay(t *testing.T, reg map[string]func()) {
 			case assumeFailed:
 				fmt.Println("VREPLAY RESULT: assume-failed")
 			default:
+				_, isRT := r.(runtime.Error)
 				if expectPanic {
 					fmt.Println("VREPLAY RESULT: ok (expected panic)")
+				} else if _, isErr := r.(error); expectErrorPanic && isErr && !isRT {
+					fmt.Println("VREPLAY RESULT: ok (panic with an ordinary error value)")
 				} else {
 					fmt.Printf("VREPLAY RESULT: violation kind=panic msg=%q\n", fmt.Sprint(r))
 				}
